@@ -90,7 +90,7 @@ class FlowRule(TypingProtocol):
 # Flow validation constants
 MAX_PACKET_LENGTH: int = 0xFFFF  # Maximum packet length (16-bit value)
 MAX_DSCP_VALUE: int = 0x3F  # Maximum DSCP value (6 bits, 0b00111111)
-MAX_TRAFFIC_CLASS: int = 0xFFFF  # Maximum traffic class value (16-bit)
+MAX_TRAFFIC_CLASS: int = 0xFF  # Maximum traffic class value (8 bits, RFC 8956 section 3.6)
 MAX_FLOW_LABEL: int = 0xFFFFF  # Maximum flow label value (20 bits)
 
 
